@@ -1,9 +1,9 @@
 package rules
 
 import (
-	"go/types"
 	"fmt"
 	"go/token"
+	"go/types"
 	"sort"
 	"strings"
 
@@ -416,7 +416,6 @@ func c05SelfConf(r *core.Run) {
 	r.Check(strsOK, "C05.SELFCONF", "detection#string-matcher-consults(StringLiterals)", token.NoPos, "the string matcher consults the string literals", "no matcher consults the string literals")
 }
 
-
 // c05PatternDerivation: a stored string pattern must still be contained (after the matcher's case folding)
 // in the literal it was taken from. That holds when the pattern is the literal itself or a trimmed form of
 // it; any other transformation (byte slicing can cut a multi-byte rune, concatenation, replacement) is
@@ -497,7 +496,6 @@ func c05PatternDerivation(r *core.Run) {
 	}
 	r.Floor("C05.SELFCONF", "pattern insert sites in the string-pattern extractor", nSites, 1)
 }
-
 
 // c05IndependentMatching: the indexer stores every call of the profile (every literal) as a requirement, and the
 // matchers look each requirement up in the scanned function's profile. A self match finds all of them only if each
